@@ -170,17 +170,42 @@ fn c09_builtins() -> Vec<(&'static str, Builtin<VSys>)> {
     ]
 }
 
+type RedirSpec = (i32, String, String);
+
 struct Case {
     noclobber: bool,
     limit: Option<u64>,
     pre: Vec<(i32, char)>,
-    kind: String,
-    redirs: Vec<(i32, String, String)>,
+    /// (kind, redirections) of each command of the script
+    commands: Vec<(String, Vec<RedirSpec>)>,
+}
+
+fn parse_redirs(text: &str) -> Option<Vec<RedirSpec>> {
+    let mut redirs = vec![];
+    for r in text.split(';').map(|s| s.trim()).filter(|s| !s.is_empty()) {
+        let w: Vec<&str> = r.split_whitespace().collect();
+        if w.len() != 3 {
+            return None;
+        }
+        let fd: i32 = w[0].parse().ok()?;
+        let ok_operand = match w[1] {
+            "in" | "out" | "clob" | "app" | "rw" => ["a", "b", "m", "n", "d", "e", "E"].contains(&w[2]),
+            "dupin" | "dupout" => w[2] == "-" || w[2] == "z" || w[2] == "E" || w[2].parse::<u32>().is_ok(),
+            "here" => true,
+            "pipe" | "hstr" => true,
+            _ => false,
+        };
+        if !ok_operand {
+            return None;
+        }
+        redirs.push((fd, w[1].to_string(), w[2].to_string()));
+    }
+    Some(redirs)
 }
 
 fn parse_case(case: &str) -> Option<Case> {
     let parts: Vec<&str> = case.split('|').map(|s| s.trim()).collect();
-    if parts.len() != 3 {
+    if parts.len() < 3 || parts.len() % 2 != 1 {
         return None;
     }
     let h: Vec<&str> = parts[0].split_whitespace().collect();
@@ -200,30 +225,14 @@ fn parse_case(case: &str) -> Option<Case> {
             pre.push((n.parse().ok()?, m));
         }
     }
-    let kind = parts[1].to_string();
-    if !["special", "colon", "regular", "func", "brace", "notfound", "empty", "exec"].contains(&kind.as_str()) {
-        return None;
-    }
-    let mut redirs = vec![];
-    for r in parts[2].split(';').map(|s| s.trim()).filter(|s| !s.is_empty()) {
-        let w: Vec<&str> = r.split_whitespace().collect();
-        if w.len() != 3 {
+    let mut commands = vec![];
+    for pair in parts[1..].chunks(2) {
+        if !KINDS.contains(&pair[0]) {
             return None;
         }
-        let fd: i32 = w[0].parse().ok()?;
-        let ok_operand = match w[1] {
-            "in" | "out" | "clob" | "app" | "rw" => ["a", "b", "m", "n", "d", "e", "E"].contains(&w[2]),
-            "dupin" | "dupout" => w[2] == "-" || w[2] == "z" || w[2] == "E" || w[2].parse::<u32>().is_ok(),
-            "here" => true,
-            "pipe" | "hstr" => true,
-            _ => false,
-        };
-        if !ok_operand {
-            return None;
-        }
-        redirs.push((fd, w[1].to_string(), w[2].to_string()));
+        commands.push((pair[0].to_string(), parse_redirs(pair[1])?));
     }
-    Some(Case { noclobber, limit, pre, kind, redirs })
+    Some(Case { noclobber, limit, pre, commands })
 }
 
 fn operand_text(o: &str) -> String {
@@ -239,10 +248,10 @@ fn operand_text(o: &str) -> String {
     }
 }
 
-fn script_of(c: &Case, salt: u64) -> String {
+fn command_text(kind: &str, redirs: &[RedirSpec], salt: u64) -> String {
     let mut words = vec![];
     let mut bodies = String::new();
-    for (i, (fd, op, operand)) in c.redirs.iter().enumerate() {
+    for (i, (fd, op, operand)) in redirs.iter().enumerate() {
         let (sym, default) = match op.as_str() {
             "in" => ("<", 0),
             "out" => (">", 1),
@@ -267,7 +276,7 @@ fn script_of(c: &Case, salt: u64) -> String {
             words.push(format!("{n}{sym}{}", operand_text(operand)));
         }
     }
-    let cmd = match c.kind.as_str() {
+    let cmd = match kind {
         "special" => "sfds",
         "colon" => ":",
         "regular" => "fds",
@@ -275,9 +284,19 @@ fn script_of(c: &Case, salt: u64) -> String {
         "brace" => "{ fds; }",
         "notfound" => "nosuchcmd",
         "empty" => "",
+        "paren" => "( fds )",
+        "cmdexec" => "command exec",
         _ => "exec",
     };
-    format!("f() {{ fds; }}\nmark\n{} {}\n{}mark\n", cmd, words.join(" "), bodies)
+    format!("{} {}\n{}mark\n", cmd, words.join(" "), bodies)
+}
+
+fn script_of(c: &Case, salt: u64) -> String {
+    let mut s = String::from("f() { fds; }\nmark\n");
+    for (i, (kind, redirs)) in c.commands.iter().enumerate() {
+        s.push_str(&command_text(kind, redirs, salt.rotate_left(7 * i as u32)));
+    }
+    s
 }
 
 fn setup_system(env: &mut VEnv, state: &Rc<RefCell<SystemState>>, pre: &[(i32, char)], limit: Option<u64>) {
@@ -380,51 +399,68 @@ fn run_case(case: &str) -> (String, String) {
     let Some((f_text, f_entries, files)) = fin else {
         return (if outcome.stuck { "STUCK".into() } else { "NO-RESULT".into() }, "FAIL:stuck".into());
     };
-    let marks: Vec<&(String, String, Vec<Entry>)> = log.iter().filter(|e| e.0 == "mark").collect();
-    let during: Vec<&(String, String, Vec<Entry>)> = log.iter().filter(|e| e.0 == "fds").collect();
-    let Some(before) = marks.first() else {
+    // the log is: mark, then per command that ran to its end: [fds] mark
+    if log.first().map(|e| e.0 != "mark").unwrap_or(true) {
         return ("NO-BEFORE".into(), "FAIL:no-before".into());
-    };
-    let b_text = before.1.split_once(':').map(|x| x.1).unwrap_or("");
-    let d_text = during.first().map(|d| d.1.clone()).unwrap_or_else(|| "-".into());
-    let after = marks.get(1);
-    let a_text = after.map(|a| a.1.clone()).unwrap_or_else(|| "-".into());
-    let obs = format!(
-        "B={b_text} D={d_text} A={a_text} F={f_text} files={files} exit={}",
-        outcome.exit_status
-    );
-
-    // ---- the property statement on the real run
-    let targets: Vec<i32> = c.redirs.iter().map(|r| r.0).collect();
-    let persists = c.kind == "exec" && after.map(|a| a.1.starts_with("0:")).unwrap_or(false);
-    let mut verdict = "ok".to_string();
-    if during.len() > 1 {
-        verdict = "FAIL:body-ran-twice".into();
     }
-    if !persists {
-        if !same_table(&before.2, &f_entries) {
+    let b_text = log[0].1.split_once(':').map(|x| x.1).unwrap_or("").to_string();
+    let mut parts = vec![format!("B={b_text}")];
+    let mut verdict = "ok".to_string();
+    let mut pos = 1usize;
+    let mut base: Vec<Entry> = log[0].2.clone();
+    for (kind, redirs) in &c.commands {
+        let mut during: Vec<&(String, String, Vec<Entry>)> = vec![];
+        while pos < log.len() && log[pos].0 == "fds" {
+            during.push(&log[pos]);
+            pos += 1;
+        }
+        let after = if pos < log.len() { Some(&log[pos]) } else { None };
+        pos += 1;
+        let d_text = during.first().map(|d| d.1.clone()).unwrap_or_else(|| "-".into());
+        let a_text = after.map(|a| a.1.clone()).unwrap_or_else(|| "-".into());
+        parts.push(format!("D={d_text} A={a_text}"));
+
+        // ---- the property statement on the real run of this command
+        let targets: Vec<i32> = redirs.iter().map(|r| r.0).collect();
+        let persists =
+            (kind == "exec" || kind == "cmdexec") && after.map(|a| a.1.starts_with("0:")).unwrap_or(false);
+        if during.len() > 1 {
+            verdict = "FAIL:body-ran-twice".into();
+        }
+        // the table this command leaves: the next mark, or the final table when the shell exited
+        let left: &Vec<Entry> = after.map(|a| &a.2).unwrap_or(&f_entries);
+        if !persists && !same_table(&base, left) {
             verdict = "FAIL:table-not-restored".into();
         }
-        if let Some(a) = after {
-            if !same_table(&before.2, &a.2) {
-                verdict = "FAIL:table-not-restored-after-command".into();
+        for (fd, _, _) in left {
+            let was = base.iter().any(|e| e.0 == *fd);
+            if *fd >= 10 && !was && !(persists && targets.contains(fd)) {
+                verdict = format!("FAIL:descriptor-{fd}-left-open");
             }
         }
-    }
-    for (fd, _, _) in &f_entries {
-        let was = before.2.iter().any(|e| e.0 == *fd);
-        if *fd >= 10 && !was && !(persists && targets.contains(fd)) {
-            verdict = format!("FAIL:descriptor-{fd}-left-open");
-        }
-    }
-    if let Some(d) = during.first() {
-        for e in &d.2 {
-            let unchanged = before.2.contains(e);
-            if !unchanged && !targets.contains(&e.0) && !(e.0 >= 10 && e.2) {
-                verdict = format!("FAIL:internal-descriptor-{}", e.0);
+        if let Some(d) = during.first() {
+            for e in &d.2 {
+                let unchanged = base.contains(e);
+                if !unchanged && !targets.contains(&e.0) && !(e.0 >= 10 && e.2) {
+                    verdict = format!("FAIL:internal-descriptor-{}", e.0);
+                }
             }
         }
+        match after {
+            Some(a) => base = a.2.clone(),
+            None => break,
+        }
     }
+    // commands after the one at which the shell exited did not run
+    while parts.len() < c.commands.len() + 1 {
+        parts.push("D=- A=-".into());
+    }
+    if !same_table(&base, &f_entries) && verdict == "ok" {
+        // `base` is the table after the last command that ran to its end (or the one before the
+        // command at which the shell exited, which must have restored it)
+        verdict = "FAIL:final-table-differs".into();
+    }
+    let obs = format!("{} F={f_text} files={files} exit={}", parts.join(" "), outcome.exit_status);
     (obs, verdict)
 }
 
@@ -437,7 +473,8 @@ fn run_guarded(case: &str) -> (String, String) {
     if o.starts_with("PANIC") { (o.clone(), format!("FAIL:{o}")) } else { out }
 }
 
-const KINDS: [&str; 8] = ["special", "colon", "regular", "func", "brace", "notfound", "empty", "exec"];
+const KINDS: [&str; 10] =
+    ["special", "colon", "regular", "func", "brace", "notfound", "empty", "exec", "paren", "cmdexec"];
 const FILE_OPS: [&str; 5] = ["in", "out", "clob", "app", "rw"];
 const FILE_OPERANDS: [&str; 7] = ["a", "b", "m", "n", "d", "e", "E"];
 
@@ -448,7 +485,10 @@ fn gen_redir(r: &mut Rng) -> String {
         _ => 10 + r.below(3),
     };
     match r.below(12) {
-        0..=5 => format!("{fd} {} {}", r.pick(&FILE_OPS), r.pick(&FILE_OPERANDS)),
+        0..=5 => {
+            let operand = if r.chance(3, 5) { *r.pick(&["a", "b", "m", "n"]) } else { *r.pick(&FILE_OPERANDS) };
+            format!("{fd} {} {}", r.pick(&FILE_OPS), operand)
+        }
         6..=8 => {
             let op = r.pick(&["dupin", "dupout"]);
             let src = match r.below(10) {
@@ -499,16 +539,22 @@ fn gen_case(r: &mut Rng) -> String {
         let lo = (max_open + 1).max(3) as usize;
         (lo + r.below(15usize.saturating_sub(lo).max(1))).to_string()
     };
-    let kind = *r.pick(&KINDS);
-    let n = match r.below(10) {
-        0 => 0,
-        1..=4 => 1,
-        5..=7 => 2,
-        8 => 3,
-        _ => 4,
-    };
-    let rs: Vec<String> = (0..n).map(|_| gen_redir(r)).collect();
-    format!("{nc} {lim} {pre} | {kind} | {}", rs.join("; "))
+    // one command in two thirds of the cases, otherwise a script of 2-3 commands (the first often `exec`)
+    let ncmd = if r.chance(2, 3) { 1 } else { 2 + r.below(2) };
+    let mut cmds = vec![];
+    for i in 0..ncmd {
+        let kind = if ncmd > 1 && i == 0 && r.chance(1, 2) { *r.pick(&["exec", "cmdexec"]) } else { *r.pick(&KINDS) };
+        let n = match r.below(10) {
+            0 => 0,
+            1..=4 => 1,
+            5..=7 => 2,
+            8 => 3,
+            _ => 4,
+        };
+        let rs: Vec<String> = (0..n).map(|_| gen_redir(r)).collect();
+        cmds.push(format!("{kind} | {}", rs.join("; ")));
+    }
+    format!("{nc} {lim} {pre} | {}", cmds.join(" | "))
 }
 
 /// every operator × operand on each kind; failing second redirection after a successful first
@@ -555,6 +601,33 @@ fn systematic(thorough: bool) -> Vec<String> {
             v.push(format!("0 - {pre} | {kind} | 3 out a; 4 in m; 5 out b"));
             v.push(format!("1 - {pre} | {kind} | 1 out m; 1 out m"));
             v.push(format!("0 - {pre} | {kind} | 0 here -; 1 dupout 0; 3 dupin 0"));
+        }
+    }
+    v
+}
+
+/// every ordered pair of a set of single redirections (a failing or succeeding second after a
+/// failing or succeeding first; same and different targets)
+fn pairs(thorough: bool) -> Vec<String> {
+    let singles = [
+        "1 out a", "1 out m", "1 app b", "1 out e", "1 clob a", "0 in a", "0 in m", "0 rw n", "0 here -",
+        "2 dupout 1", "1 dupout 2", "1 dupout -", "0 dupin -", "3 out m", "3 dupout 1", "3 dupin 0",
+        "1 dupout 3", "0 dupin 3", "3 dupout -", "2 out m", "10 out m", "1 dupout 10", "5 here -",
+        "1 dupout 5", "1 out E", "1 pipe a", "0 dupin z", "2 dupout 7", "1 out d", "4 in d",
+    ];
+    let mut v = vec![];
+    let mut k = 0usize;
+    for a in singles {
+        for b in singles {
+            for (i, kind) in KINDS.iter().enumerate() {
+                k += 1;
+                if !thorough && (k + i) % 7 != 0 {
+                    continue;
+                }
+                let pre = if k % 2 == 0 { "-" } else { "3b" };
+                let nc = (k / 2) % 2;
+                v.push(format!("{nc} - {pre} | {kind} | {a}; {b}"));
+            }
         }
     }
     v
@@ -615,6 +688,7 @@ fn main() {
     let mut index = 0usize;
     let mut all = systematic(o.thorough());
     all.extend(exhaustion(o.thorough()));
+    all.extend(pairs(o.thorough()));
     for c in &all {
         if index % o.shard.1 == o.shard.0 {
             let (obs, oracle) = run_guarded(c);
@@ -623,7 +697,7 @@ fn main() {
         index += 1;
     }
     let mut rng = Rng::new(o.seed ^ 0xC09);
-    let n = if o.thorough() { 100_000 } else { 2_500 };
+    let n = if o.thorough() { 1_000_000 } else { 6_000 };
     for k in 0..n {
         let mut r = rng.fork();
         if k % o.shard.1 != o.shard.0 {
